@@ -18,7 +18,7 @@ LEVEL = "exploration"
 RULE = (
     "metamorphic: one console byte stream (1..6 frames of every status / answer / unknown kind, 8 % with one frame of 255..9000 payload bytes, both generations) is delivered "
     "to the real socket once whole and once cut at generated points (0..40 cuts, all-single-bytes, many-frames-in-one-chunk) "
-    "with 0, one epsilon or one tick of virtual time (= loop turns) between chunks; both deliveries must produce the same "
+    "with 0, one epsilon or one tick (4 %: 7 / 45 / 400 s) of virtual time (= loop turns) between chunks; both deliveries must produce the same "
     "messages, once each, in order, and as many as the reference framing finds. Thorough tier additionally enumerates every "
     "placement of <= 3 cuts in two fixed 2-3 frame streams (quick: <= 2 cuts in one stream). non-trivial = at least one cut "
     "inside a frame; distinct = distinct (frame kinds, cut positions relative to frame structure) signature"
@@ -28,7 +28,7 @@ COMPONENTS = {
     "stub": ["clock/_run_once (SimLoop)", "TCP delivery (SimNet chunks)", "console = byte source"],
 }
 ASSUMPTIONS = ["only well-formed streams are segmented here (malformed input is C06/C17)"]
-PROBES = ["c13.long_frame_cut_in_tail", "c13.cut_in_prefix", "c13.cut_in_length", "c13.cut_in_crc", "c13.single_bytes", "c13.many_frames_one_chunk", "c13.turns_between_chunks"]
+PROBES = ["c13.long_pause_inside_frame", "c13.long_frame_cut_in_tail", "c13.cut_in_prefix", "c13.cut_in_length", "c13.cut_in_crc", "c13.single_bytes", "c13.many_frames_one_chunk", "c13.turns_between_chunks"]
 EXHAUSTIVE = True
 
 
@@ -85,6 +85,10 @@ def generate(rng, index: int, tier: str) -> dict:
     gap = rng.choice([0.0, 0.0, G.EPS, G.TICK])
     if mode == "tail":
         gap = rng.choice([0.0, G.EPS, G.TICK, G.TICK])
+    if len(cuts) <= 6 and rng.random() < 0.04:
+        # a sender that pauses for a long time in the middle of a frame (nothing in the socket layer may time a frame out)
+        gap = rng.choice([7.0, 45.0, 400.0])
+        mode = "pause"
     return _scenario(gen, frames, cuts, gap, rng.choice([0.0, G.TICK]))
 
 
@@ -197,6 +201,8 @@ def execute(sc: dict) -> dict:
         probes["c13.many_frames_one_chunk"] = 1
     if any(g > 0 for g in raw_step.get("gaps", [])) and cuts:
         probes["c13.turns_between_chunks"] = 1
+    if any(g >= 7.0 for g in raw_step.get("gaps", [])) and inside:
+        probes["c13.long_pause_inside_frame"] = 1
     kinds = tuple(wire.read(f)["kind"] for f in frames)
     sig = []
     off = 0
